@@ -11,13 +11,16 @@ import itertools
 from common import hex6, time_limit, Timeout
 
 ID = "C11"
-GEN_DEPENDS = []
+GEN_DEPENDS = ["C11Kernels"]
 RULE = ("random histories (<= 25 container ops after a set-up prefix) over 2-4 namespaces (case-sensitive and -insensitive) with "
         "overlapping, disjoint, duplicate and case-variant labels; ops: TreeList append/insert/[]=/slice=/extend/+=/+/read/new_tree/"
         "pop/del/remove/[a:b]/clone (incl. positions out of range and trees not in the list: the refusal is compared), Tree/TreeList/"
         "CharacterMatrix migrate/reconstruct/clone (both unify flags), matrix []=/new_sequence, TreeArray.add_tree of a foreign tree, "
         "DataSet add/new_*/attach/detach/unify/read, chains of migrations sharing one caller-supplied taxon_mapping_memo across "
-        "namespaces, both import strategies; thorough adds every depth<=3 history over a fixed small world; "
+        "namespaces, both import strategies; the taxon_namespace property setter on Tree/TreeList/CharacterMatrix (with "
+        "automigrate_taxon_namespace_on_assignment, and plain followed by update_taxon_namespace()), CharacterMatrix add/replace/update/"
+        "extend_sequences/extend_matrix with a matrix of the same or another namespace (the refusal is compared), purge_taxon_namespace of an "
+        "object that is the only user of its namespace, positions also written as negative indices and pop() without argument; thorough adds every depth<=3 history over a fixed small world; "
         "non-trivial = at least two namespaces are involved in a migrating/cloning/reading step")
 MODELLED_NOT_VERIFIED = [
     "C11: the Lean store model (namespaces = ordered member lists + case flag; trees = namespace ref + pre-order taxon refs; matrices = "
@@ -25,29 +28,44 @@ MODELLED_NOT_VERIFIED = [
     "code by the per-step comparison of the whole world state (taxon identity compared up to renaming)",
     "C11: tree topology, sequences, annotations are abstracted away; readers are modelled as require_taxon per label in document order "
     "(reader internals: C13/C20); labels are ASCII in the correspondence (Python str.lower vs Lean String.toLower)",
+    "C11: tie A (harness/gen/c11kernels.py -> Gen/C11Kernels.lean, bridged in Props/C11.lean): the if/elif dispatch of "
+    "_import_tree_to_taxon_namespace and of the taxon_namespace setter, the default strategy / unify flags, the re-mapping guards of the "
+    "tree and matrix reconstruction loops and the one-memo threading of TreeList.reconstruct_taxon_namespace / DataSet.unify_taxon_namespaces "
+    "are regenerated from the source; the bodies of require_taxon / new_taxon / add_taxon and the loops themselves remain hand-modelled",
+    "C11: purge_taxon_namespace is documented to look at `self` only; it is modelled and compared, generated only where the purging object is "
+    "the sole user of its namespace (decided by the harness from the real objects), and is outside the model's `valid` (theorem purge_closed "
+    "carries the sole-user hypothesis)",
     "C11: ownership precondition - an operation that re-binds a tree (matrix, tree list) which is at that moment a member of ANOTHER "
     "collection bound to a different namespace is outside the statement (documented: originals are migrated); histories never do it and the "
     "theorems carry it as the decidable hypothesis `Valid`",
 ]
-EXPLANATION = ("Theorems (Props/C11.lean + Theory/C11Fresh.lean, about the definitions drv_c11 runs; stepG = step guarded by idsOk): "
+EXPLANATION = ("Theorems (Props/C11.lean + Theory/C11Fresh.lean + Theory/C11Pass.lean, about the definitions drv_c11 runs; stepG = step guarded by idsOk): "
                "closed_init; closed_step / closed_stepG - Inv (clauses a and c + allocation discipline) is preserved by EVERY op of the alphabet "
                "inside the ownership domain `valid` (incl. TreeList/CharacterMatrix migrate/reconstruct, copies, + with a plain list, "
-               "DataSet.unify_taxon_namespaces, DataSet.read); closed_reachable / closed_from_init (induction over histories); the earlier "
+               "DataSet.unify_taxon_namespaces, DataSet.read, the taxon_namespace setter with and without automigrate on trees, lists and "
+               "matrices, matrix combination); closed_reachable / closed_from_init (induction over histories); the earlier "
                "closed_*_partial forms are kept; stepG_refuses; removed_tree_consistent, replaced_tree_consistent (clause c); fresh_step / "
                "fresh_reachable / freshNs_reachable (every referenced taxon id is allocated: an unconditional history invariant); clause b for "
                "whole passes: mapTaxa_unify_spec, migrateTree_unify_spec, migrateTree_unify_reachable (no side conditions); across the trees of a "
                "list and the lists of a data set through the shared memo: migrateTrees_unify_spec, migrateTl_unify_spec, migrateTls_unify_spec "
-               "(trees pairwise different objects), migrateTl_same_taxon_iff; every copy route: cloneMemo_spec, cloneTree_spec; the driver's own "
+               "(trees pairwise different objects), migrateTl_same_taxon_iff; unify_taxa_by_label=False over WHOLE passes: mapTaxa_fresh_spec, "
+               "migrateTree_fresh_spec, migrateTl_fresh_spec, migrateTl_fresh_reachable (members kept, every foreign taxon on a taxon created by the "
+               "pass with the same label, and two nodes anywhere in the list share a taxon afterwards iff they shared one before - full form of "
+               "unify_false_distinct_partial, which is kept); every copy route: cloneMemo_spec, cloneTree_spec; the driver's own "
                "run: runG_eq_run, closed_reachable_driver, fresh_stepG; "
                "resolved_member_label, same_taxon_iff_equal_labels, mapTaxa_shape; matrices: mapKeys_unify_spec, migrateMat_ok_closed, "
                "migrateMat_refused_state (the known finding's state, precisely; mapKeys_unify_spec is the soundness direction only); "
                "mapKeys_accepted / migrateMat_accepted_keeps_sequences / migrateMat_keys_nodup (an accepted pass over a key list naming no "
                "taxon twice keeps every sequence under a key of its own; Nodup of the key list is a hypothesis, not yet a history invariant); "
-               "readers: resolvedLast_member_label, same_taxon_iff_equal_labels_last, readLabels_spec, readTrees_spec, readInto_spec (labels of "
-               "a further source land on what the last-match table of the final namespace answers; earlier answers persist); chain of "
-               "migrations sharing a caller-supplied memo: covered by closed_step / fresh_step; unify_false_distinct_partial (one/two items, not lifted to "
-               "whole runs); migrate_*_partial (single resolutions). Not proved: unify=False distinctness over whole runs, the readers' "
-               "last-match lookup as a label spec, 'no sequence merged' for accepted matrix passes (needs key-list Nodup).")
+               "readers' last-match lookup: resolvedLast_member_label, same_taxon_iff_equal_labels_last, readLabels_spec, readTrees_spec, "
+               "readInto_spec (labels of a further source land on what the last-match table of the final namespace answers; earlier answers "
+               "persist); purge_closed (purge_taxon_namespace by the sole user of a namespace keeps closure and drops nothing referenced); chain of "
+               "migrations sharing a caller-supplied memo: covered by closed_step / fresh_step; tie-A bridges importTree_bridge, "
+               "importDefault_bridge, mapOne_guard_bridge, mapKeys_guard_bridge, setter_bridge, shared_memo_bridge (the regenerated kernels of "
+               "Gen/C11Kernels.lean are what the model hard-wires); migrate_*_partial (single resolutions). Not proved: Nodup of matrix key "
+               "lists and of tree lists as history invariants (hypotheses of the whole-pass theorems); non-unifying passes with a caller-supplied "
+               "non-empty memo (chain) beyond closure/freshness; the readers' table as the dictionary label_taxon_map() builds (modelled as a "
+               "reverse search).")
 
 LABEL_POOL = ["A", "B", "C", "D", "a", "b", "E", "Ab", "AB", "c_1", "x y", "'q'", "E", "A"]
 
@@ -244,6 +262,23 @@ def err_name(e):
     return "Internal(%s)" % type(e).__name__
 
 
+# CharacterMatrix methods combining two matrices: (method, extra args, does it add sequences for taxa `self` has none for?)
+MCOMB = {"add_sequences": ("add_sequences", (), 1), "update_sequences": ("update_sequences", (), 1),
+         "extend_matrix": ("extend_matrix", (), 1), "extend_new": ("extend_sequences", (True,), 1),
+         "replace_sequences": ("replace_sequences", (), 0), "extend_sequences": ("extend_sequences", (), 0)}
+
+
+def py_index(w, op, i, flag):
+    """the index handed to the Python call: the op stores the position counted from the front (what the model is told); with the flag
+    "neg" the call uses the equivalent negative index (`tl[i - len(tl)]`), which `list` resolves - DendroPy only passes it on"""
+    idx = op[i]
+    if len(op) > flag and op[flag] == "neg":
+        n = len(w.lists[op[1]]._trees)
+        if 0 <= idx < n:
+            return idx - n
+    return idx
+
+
 def apply_op(w, op):
     """execute one op on the real objects; returns status string. New objects are registered in the model's allocation order."""
     dp = w.dp
@@ -268,9 +303,9 @@ def apply_op(w, op):
     elif k == "append":
         w.lists[op[1]].append(w.trees[op[2]], taxon_import_strategy=op[3])
     elif k == "insert":
-        w.lists[op[1]].insert(op[2], w.trees[op[3]], taxon_import_strategy=op[4])
+        w.lists[op[1]].insert(py_index(w, op, 2, 5), w.trees[op[3]], taxon_import_strategy=op[4])
     elif k == "setitem":
-        w.lists[op[1]][op[2]] = w.trees[op[3]]
+        w.lists[op[1]][py_index(w, op, 2, 4)] = w.trees[op[3]]
     elif k == "setslice":
         tl = w.lists[op[1]]
         if op[4] == "L":
@@ -329,9 +364,13 @@ def apply_op(w, op):
     elif k == "getslice":
         w.reg_list(w.lists[op[1]][op[2]:op[3]])
     elif k == "pop":
-        w.lists[op[1]].pop(op[2])
+        tl = w.lists[op[1]]
+        if len(op) > 3 and op[3] == "last" and op[2] == len(tl._trees) - 1:
+            tl.pop()                       # the default index -1
+        else:
+            tl.pop(py_index(w, op, 2, 3))
     elif k == "del":
-        del w.lists[op[1]][op[2]]
+        del w.lists[op[1]][py_index(w, op, 2, 3)]
     elif k == "remove":
         w.lists[op[1]].remove(w.trees[op[2]])
     elif k == "lclone":
@@ -415,6 +454,34 @@ def apply_op(w, op):
         for kind, obj, n, unify in op[1]:
             target = {"t": w.trees, "l": w.lists, "m": w.mats}[kind][obj]
             target.migrate_taxon_namespace(w.nss[n], unify_taxa_by_label=bool(unify), taxon_mapping_memo=memo)
+    elif k in ("tassign", "lassign", "massign"):
+        # the `taxon_namespace` property setter: with automigrate_taxon_namespace_on_assignment it migrates (unless the very object is
+        # assigned); without, it re-binds only, and the caller follows with update_taxon_namespace() (the 'add' strategy by hand)
+        obj = {"tassign": w.trees, "lassign": w.lists, "massign": w.mats}[k][op[1]]
+        ns = w.nss[op[2]]
+        if op[3]:
+            obj.automigrate_taxon_namespace_on_assignment = True
+            try:
+                obj.taxon_namespace = ns
+            finally:
+                obj.automigrate_taxon_namespace_on_assignment = False
+        else:
+            obj.taxon_namespace = ns
+            obj.update_taxon_namespace()
+    elif k == "mcomb":
+        a, b = w.mats[op[1]], w.mats[op[2]]
+        meth, args, _ = MCOMB[op[3]]
+        try:
+            getattr(a, meth)(b, *args)
+        finally:
+            # sequence TEXTS are what the oracle follows sequences by: keep them pairwise different inside one matrix
+            seen = set()
+            for key, text in mat_items(a):
+                if text in seen:
+                    a[key] = w.fresh_seq()
+                seen.add(text)
+    elif k in ("tpurge", "lpurge", "mpurge"):
+        {"tpurge": w.trees, "lpurge": w.lists, "mpurge": w.mats}[k][op[1]].purge_taxon_namespace()
     elif k == "taadd":
         ta = dp.TreeArray(taxon_namespace=w.nss[op[1]])
         tree = w.trees[op[2]]
@@ -589,6 +656,12 @@ def enc_op(op):
         return [k, str(op[1]), str(op[2]), str(op[3])]
     if k == "taadd":
         return ["taadd", str(op[1]), str(op[2])]
+    if k in ("tassign", "lassign", "massign"):
+        return [k, str(op[1]), str(op[2]), str(op[3])]
+    if k == "mcomb":
+        return ["mcomb", str(op[1]), str(op[2]), str(MCOMB[op[3]][2])]
+    if k in ("tpurge", "lpurge", "mpurge"):
+        return [k, str(op[1])]
     if k == "chain":
         return ["chain", ",".join("%s.%d.%d.%d" % (g[0], g[1], g[2], g[3]) for g in op[1]) if op[1] else "="]
     if k == "newtreeseed":
@@ -708,6 +781,19 @@ class Watch(object):
                 else:
                     m = w.mats[op[1]]
                     self.before = [("m", m, mat_items(m))]
+            elif k in ("tassign", "lassign", "massign"):
+                obj = {"tassign": w.trees, "lassign": L, "massign": w.mats}[k][op[1]]
+                self.target = w.nss[op[2]]
+                if op[3] and obj.taxon_namespace is self.target:
+                    self.mode = None                      # assigning the object already bound does nothing at all
+                else:
+                    self.mode = "unify" if op[3] else "same"
+                    if k == "tassign":
+                        self.before = [("t", obj, tree_taxa(obj))]
+                    elif k == "lassign":
+                        self.before = [("t", t, tree_taxa(t)) for t in obj._trees]
+                    else:
+                        self.before = [("m", obj, mat_items(obj))]
             elif k == "mrec":
                 m = w.mats[op[1]]
                 self.target = m.taxon_namespace
@@ -956,7 +1042,9 @@ class Watch(object):
 # =====================================================================================================================
 # running one history on both sides
 # =====================================================================================================================
-KNOWN_PRECONDITION = {"dsadd": "dataset-add-foreign-when-attached", "dsattach": "dataset-attach-over-foreign-components"}
+KNOWN_PRECONDITION = {"dsadd": "dataset-add-foreign-when-attached", "dsattach": "dataset-attach-over-foreign-components",
+                      # purge_taxon_namespace is outside the model's `valid` altogether (theorem purge_closed has its own hypothesis)
+                      "tpurge": None, "lpurge": None, "mpurge": None}
 
 
 SHARED_ID = "tree-held-by-another-list-rebound"
@@ -986,7 +1074,7 @@ def classify(w, op, status, problems, shared=False):
         return "dataset-add-foreign-when-attached"
     if k == "dsattach" and clauses == {"a-dataset"} and status == "ok":
         return "dataset-attach-over-foreign-components"
-    if k in ("mmig", "mrec", "dsunify", "chain") and status == "Conflict" and clauses == {"a-matrix"}:
+    if k in ("mmig", "mrec", "dsunify", "chain", "massign") and status == "Conflict" and clauses == {"a-matrix"}:
         return "matrix-merge-refusal-not-atomic"
     if k == "dsunify" and status == "Conflict" and clauses <= {"a-matrix", "a-dataset"}:
         # the same refusal inside unify_taxon_namespaces of a data set that is still attached to its previous namespace
@@ -1011,6 +1099,10 @@ def expected_refusals(w, op):
             return {"ValueError"} if foreign or (k == "mnew" and present) else set()
         if k in ("mmig", "mrec", "mclone"):
             return {"Conflict"}
+        if k == "massign":
+            return {"Conflict"} if op[3] else set()
+        if k == "mcomb":
+            return {"NamespaceIdentity"} if w.mats[op[1]].taxon_namespace is not w.mats[op[2]].taxon_namespace else set()
         if k == "chain":
             return {"Conflict"} if any(g[0] == "m" for g in op[1]) else set()       # TaxonNamespaceReconstructionError; whether it is legitimate is judged by Watch.check
         if k == "dsunify":
@@ -1176,6 +1268,15 @@ def attached_owner_conflict(w, obj, ns):
     return False
 
 
+def purge_in_domain(w, k, obj):
+    """nothing but `obj` (and, for a tree list, its own trees) is bound to obj's namespace"""
+    ns = obj.taxon_namespace
+    own = [obj] if k == "tpurge" else (list(obj._trees) if k == "lpurge" else [])
+    if any(t.taxon_namespace is ns and not any(t is o for o in own) for t in w.trees):
+        return False
+    return not any(m.taxon_namespace is ns and m is not obj for m in w.mats)
+
+
 def tree_rebind_ok(w, t, ns, by=None):
     """may tree t be re-bound to namespace ns (by list `by`) without breaking another collection?"""
     if t.taxon_namespace is ns:
@@ -1197,7 +1298,8 @@ def random_op(rng, w, allow_known=False):
     nN, nT, nL, nM, nD = len(w.nss), len(w.trees), len(w.lists), len(w.mats), len(w.dss)
     kinds = ["append", "append", "insert", "setitem", "setslice", "extend", "iadd", "add", "read", "newtree", "getslice", "pop",
              "remove", "lclone", "tclone", "mclone", "tmig", "trec", "lmig", "lrec", "mmig", "mrec", "mset", "mnew", "dsadd",
-             "dsnewlist", "dsnewmat", "dsnewns", "dsattach", "dsdetach", "dsunify", "dsread", "tree", "tlist", "ns", "mat", "taadd", "newtreeseed", "newtreeseed", "treeseed", "read", "tlget", "tget", "mget", "chain", "chain"]
+             "dsnewlist", "dsnewmat", "dsnewns", "dsattach", "dsdetach", "dsunify", "dsread", "tree", "tlist", "ns", "mat", "taadd", "newtreeseed", "newtreeseed", "treeseed", "read", "tlget", "tget", "mget", "chain", "chain",
+             "tassign", "lassign", "massign", "mcomb", "mcomb", "tpurge", "lpurge", "mpurge"]
     k = rng.choice(kinds)
     pool = LABEL_POOL
 
@@ -1244,6 +1346,28 @@ def random_op(rng, w, allow_known=False):
             if ns_ok:
                 gs.append([kind, i, rng.choice(ns_ok), 0 if rng.random() < 0.15 else 1])
         return ["chain", gs] if len(gs) >= 2 else None
+    if k == "tassign" and nT:
+        t = rng.randrange(nT)
+        cands = [n for n in range(nN) if tree_rebind_ok(w, w.trees[t], w.nss[n])]
+        return ["tassign", t, rng.choice(cands), 1 if rng.random() < 0.5 else 0] if cands else None
+    if k == "lassign" and nL:
+        L = rng.randrange(nL)
+        cands = [n for n in range(nN) if list_rebind_ok(w, w.lists[L], w.nss[n])]
+        return ["lassign", L, rng.choice(cands), 1 if rng.random() < 0.5 else 0] if cands else None
+    if k == "massign" and nM:
+        M = rng.randrange(nM)
+        cands = [n for n in range(nN) if w.mats[M].taxon_namespace is w.nss[n] or not attached_owner_conflict(w, w.mats[M], w.nss[n])]
+        return ["massign", M, rng.choice(cands), 1 if rng.random() < 0.5 else 0] if cands else None
+    if k == "mcomb" and nM:
+        M = rng.randrange(nM)
+        same = [i for i, m in enumerate(w.mats) if m.taxon_namespace is w.mats[M].taxon_namespace]
+        M2 = rng.choice(same) if rng.random() < 0.75 else rng.randrange(nM)   # mostly the accepted case, sometimes the refusal
+        return ["mcomb", M, M2, rng.choice(sorted(MCOMB))]
+    if k in ("tpurge", "lpurge", "mpurge"):
+        # purge_taxon_namespace looks at `self` only (documented): generated when nothing else is bound to the namespace
+        arr = {"tpurge": w.trees, "lpurge": w.lists, "mpurge": w.mats}[k]
+        cands = [i for i, o in enumerate(arr) if purge_in_domain(w, k, o)]
+        return [k, rng.choice(cands)] if cands else None
     if k == "taadd" and nT and nN:
         t = rng.randrange(nT)
         # only foreign namespaces (the refusal): accepting a tree re-encodes it (unifurcations are suppressed), which is C06's matter
@@ -1260,12 +1384,13 @@ def random_op(rng, w, allow_known=False):
         strat = "add" if rng.random() < 0.2 else "migrate"
         if k == "append":
             return ["append", L, t, strat]
+        neg = ["neg"] if rng.random() < 0.25 else []      # the same position written as a negative index
         if k == "insert":
-            return ["insert", L, rng.randint(0, len(tl)), t, strat]
+            return ["insert", L, rng.randint(0, len(tl)), t, strat] + neg
         if rng.random() < 0.04:
             return ["setitem", L, len(tl) + rng.randint(0, 2), t]
         if len(tl):
-            return ["setitem", L, rng.randrange(len(tl)), t]
+            return ["setitem", L, rng.randrange(len(tl)), t] + neg
         return None
     if k in ("setslice", "extend", "iadd", "add") and nL:
         L = rng.randrange(nL)
@@ -1310,7 +1435,10 @@ def random_op(rng, w, allow_known=False):
         if rng.random() < 0.04:
             return [rng.choice(["pop", "del"]), L, len(w.lists[L]) + rng.randint(0, 2)]
         if len(w.lists[L]):
-            return [rng.choice(["pop", "del"]), L, rng.randrange(len(w.lists[L]))]
+            r = rng.random()
+            if r < 0.15:
+                return ["pop", L, len(w.lists[L]) - 1, "last"]       # `tl.pop()`
+            return [rng.choice(["pop", "del"]), L, rng.randrange(len(w.lists[L]))] + (["neg"] if r < 0.4 else [])
         return None
     if k == "remove" and nL:
         L = rng.randrange(nL)
@@ -1441,6 +1569,8 @@ def run(ctx):
     shared_registered = any(k.get("property") == ID and k.get("id") == SHARED_ID for k in common.load_known().get("known", []))
     if not shared_registered:
         ctx.note("known finding %s is not registered: histories re-binding a tree held by another list are not generated" % SHARED_ID)
+    for hist in TARGETED:
+        run_history(ctx, dp, hist, pending, "targeted")
     n = ctx.pick(3500, 60000)
     for i in range(n):
         if ctx.out_of_time():
@@ -1487,6 +1617,8 @@ def small_ops():
         ops.append(["lmig", L, 1 - L, 0])
         ops.append(["lclone", L, 2])
         ops.append(["dsadd", 0, "l", L])
+    ops += [["tassign", 1, 0, 1], ["tassign", 1, 2, 0], ["lassign", 0, 2, 0], ["lassign", 1, 0, 1], ["massign", 0, 0, 1], ["massign", 0, 2, 0],
+            ["mcomb", 0, 0, "update_sequences"], ["lpurge", 1], ["setitem", 0, 0, 1, "neg"]]
     ops += [["treeseed", 0, 1, 1], ["tmig", 0, 1, 1], ["tmig", 1, 0, 1], ["tmig", 1, 2, 0], ["trec", 1, 1], ["tclone", 1, 0], ["mmig", 0, 0, 1], ["mmig", 0, 2, 1],
             ["mrec", 0, 1], ["mclone", 0, 0], ["mset", 0, 1, 0], ["mnew", 0, 1, 0], ["dsadd", 0, "m", 0], ["dsnewlist", 0], ["dsattach", 0, 0],
             ["dsattach", 0, 2], ["dsdetach", 0], ["dsunify", 0, None], ["dsunify", 0, 2], ["dsread", 0, ["A", "a", "D"], ["A", "D"], [["a", "D"]]]]
@@ -1513,11 +1645,13 @@ def op_in_domain(w, op):
             return len(w.lists[op[1]]) > op[2]
         if k == "newtree":
             return op[2] is None or op[2] < len(w.trees)
-        if k == "tmig":
+        if k in ("tmig", "tassign"):
             return tree_rebind_ok(w, w.trees[op[1]], w.nss[op[2]])
-        if k == "lmig":
+        if k in ("lmig", "lassign"):
             return list_rebind_ok(w, w.lists[op[1]], w.nss[op[2]])
-        if k == "mmig":
+        if k in ("tpurge", "lpurge", "mpurge"):
+            return purge_in_domain(w, k, {"tpurge": w.trees, "lpurge": w.lists, "mpurge": w.mats}[k][op[1]])
+        if k in ("mmig", "massign"):
             return w.mats[op[1]].taxon_namespace is w.nss[op[2]] or not attached_owner_conflict(w, w.mats[op[1]], w.nss[op[2]])
         if k == "dsadd":
             ds = w.dss[op[1]]
@@ -1573,6 +1707,53 @@ def exhaustive(ctx, dp, pending):
     ctx.extra["exhaustive_small_scope"] = ("%d histories: every in-domain sequence of <= %d ops from %d instantiated ops over a fixed world "
                                            "(3 namespaces, 2 trees, 2 lists, 1 matrix, 1 data set)%s" % (
                                                count, depth, len(ops), "; depth %d cut short by the time cap" % depth if cut[0] else ""))
+
+
+def _world(*more):
+    return [["ns", 0, ["A", "b"]], ["ns", 1, ["a", "A", "C"]], ["ns", 0, []], ["tree", 1, [2, 0, 1], [-1, 0, 0]], ["tree", 1, [1, 0], [-1, 0]],
+            ["tlist", 0], ["tlist", 1], ["mat", 1, [1, 2]], ["ds"]] + [list(m) for m in more]
+
+
+# histories aimed at the kernels of Gen/C11Kernels.lean (defaults, dispatch, guards, setter, one-memo threading)
+TARGETED = [
+    _world(["append", 0, 0, "migrate"]), _world(["append", 0, 0, "add"]), _world(["insert", 0, 0, 0, "migrate"]),
+    _world(["append", 0, 1, "migrate"], ["setitem", 0, 0, 0]), _world(["setslice", 0, 0, 0, "t", [0, 1]]), _world(["extend", 0, "t", [0, 1]]),
+    _world(["iadd", 0, "t", [1]]), _world(["add", 0, "t", [0]]), _world(["append", 1, 0, "migrate"], ["append", 1, 1, "migrate"], ["extend", 0, "L", 1]),
+    _world(["tassign", 0, 0, 1]), _world(["tassign", 0, 0, 0]), _world(["tassign", 0, 1, 1]), _world(["tassign", 0, 2, 1]),
+    _world(["append", 1, 0, "migrate"], ["append", 1, 1, "migrate"], ["lassign", 1, 0, 1]),
+    _world(["append", 1, 0, "migrate"], ["append", 1, 1, "migrate"], ["lassign", 1, 2, 0]),
+    _world(["append", 1, 0, "migrate"], ["append", 1, 1, "migrate"], ["lassign", 1, 1, 1]),
+    _world(["massign", 0, 2, 1]), _world(["massign", 0, 2, 0]), _world(["massign", 0, 1, 1]), _world(["massign", 0, 0, 1]),
+    _world(["tmig", 0, 0, 1]), _world(["tmig", 0, 0, 0]), _world(["trec", 0, 0]), _world(["trec", 0, 1]),
+    _world(["append", 1, 0, "migrate"], ["append", 1, 1, "migrate"], ["lmig", 1, 0, 0]),
+    _world(["append", 1, 0, "migrate"], ["append", 1, 1, "migrate"], ["lmig", 1, 0, 1]),
+    _world(["append", 1, 0, "migrate"], ["append", 1, 1, "migrate"], ["lmig", 1, 2, 0]),
+    _world(["append", 1, 0, "migrate"], ["append", 1, 1, "migrate"], ["lrec", 1, 0]),
+    _world(["mmig", 0, 2, 0]), _world(["mmig", 0, 2, 1]), _world(["mmig", 0, 0, 0]), _world(["mrec", 0, 0]), _world(["mrec", 0, 1]),
+    _world(["append", 1, 0, "migrate"], ["tlist", 1], ["append", 2, 1, "migrate"], ["dsadd", 0, "l", 1], ["dsadd", 0, "l", 2], ["dsadd", 0, "m", 0],
+           ["dsunify", 0, 2]),
+    _world(["append", 1, 0, "migrate"], ["tlist", 1], ["append", 2, 1, "migrate"], ["dsadd", 0, "l", 1], ["dsadd", 0, "l", 2], ["dsunify", 0, None]),
+    _world(["mcomb", 0, 0, "update_sequences"]), _world(["mat", 0, [0]], ["mcomb", 0, 1, "add_sequences"]), _world(["mat", 1, [0]], ["mcomb", 1, 0, "extend_matrix"]),
+    _world(["append", 1, 0, "migrate"], ["lpurge", 1]),
+]
+
+
+def search(ctx, broken):
+    """an obligation broke (generation, bridge, build) or the model disagreed: look for an input on which the real code contradicts the
+    statement - first the histories aimed at the regenerated kernels, then random ones"""
+    dp = __import__("dendropy")
+    pending = []
+    for hist in TARGETED:
+        if ctx.failures:
+            break
+        run_history(ctx, dp, hist, pending, "search")
+    n = ctx.pick(400, 4000)
+    for _ in range(n):
+        if ctx.failures or ctx.out_of_time():
+            break
+        random_history(ctx, dp, ctx.rng, pending, ctx.rng.randint(1, 20), allow_known=False)
+    flush(ctx, pending)
+    ctx.count("targeted search histories after a broken obligation / disagreement", len(TARGETED))
 
 
 def replay(ctx, rec):
